@@ -197,6 +197,111 @@ def run_dfs(eng, p, mode='list'):
 
 
 # ---------------------------------------------------------------------------
+# dfs(exprs, max_depth) / bfs share the depth rule: a node at depth d is
+# yielded; its children (depth d+1) are visited iff max_depth is falsy or
+# d < max_depth.   PRED(s, d, md) / PREDL(seq, d, md): preorder limited that
+# way (structural recursion).
+
+PRED = z3.Function('PRED', Struct, z3.IntSort(), z3.IntSort(), SeqS)
+PREDL = z3.Function('PREDL', SeqS, z3.IntSort(), z3.IntSort(), SeqS)
+
+
+def expands(d, md):
+    return z3.Or(md == 0, d < md)  # md == 0 stands for "no limit" (None / 0)
+
+
+def unfold_pred(p, s, d, md):
+    p.assume(PRED(s, d, md) == z3.If(
+        z3.And(Struct.is_tup(s), expands(d, md)),
+        z3.Concat(z3.Unit(s), PREDL(kids(s), d + 1, md)), z3.Unit(s)))
+
+
+def setup_dfs_md(eng):
+    setup(eng)
+
+    def md_of(p):
+        return p.ghost['md']
+
+    def item_den(it):
+        if isinstance(it, tuple) and len(it) == 2 and is_node(eng, it[1]):
+            return PRED(nm.S(it[1]), sym._znum(it[0]), md_of(cur()))
+        raise sym.Unsupported('work-list item that is not (depth, node)')
+
+    def seg_den(sg):
+        g = nm.lazy_node(eng, cur(), cur().fresh_name('probe'))
+        w = sg.wrap(g) if sg.wrap else g
+        if not (isinstance(w, tuple) and len(w) == 2 and w[1] is g):
+            raise sym.Unsupported('work-list items are not (depth, node)')
+        seq = sg.seq if sg.rev else REVSEQ(sg.seq)
+        return PREDL(seq, sym._znum(w[0]), md_of(cur()))
+
+    def den(lst):
+        return den_seq(eng, lst, item_den, seg_den, cat)
+
+    def split(e, D):
+        p = cur()
+        n = nm.lazy_node(e, p, p.fresh_name('popped'))
+        d = p.fresh_int('depth')
+        p.assume(d >= 1)
+        rest = z3.Const(p.fresh_name('D'), SeqS)
+        p.assume(D == z3.Concat(PRED(nm.S(n), d, md_of(p)), rest))
+        unfold_pred(p, nm.S(n), d, md_of(p))
+        return (SNum(d), n), rest
+
+    def havoc(e, env_, p):
+        D = z3.Const(p.fresh_name('D'), SeqS)
+        env_.vars['visit'] = wl.AbsList(e, [wl.Opaque(
+            D, split, lambda d: z3.Length(d) > 0)])
+        p.ghost['out'] = z3.Const(p.fresh_name('O'), SeqS)
+
+    def inv(e, env_):
+        p = cur()
+        v = env_.vars['visit']
+        if isinstance(v, list):
+            v = wl.as_abs(e, v)
+        if not isinstance(v, wl.AbsList):
+            return [False]
+        return [('C12', z3.Concat(p.ghost['out'], den(v)) ==
+                 p.ghost['target'])]
+
+    eng.loop_specs[(DFS, 'while visit')] = LoopSpec(
+        inv=inv, havoc={'effect:state': havoc}, sets=('visit', ))
+
+
+def run_dfs_md(eng, p):
+    nodes_mod = eng.load_module('ddsmt.nodes')
+    forest, F = wl.forest(eng, p)
+    if p.decide(p.fresh_bool('no_limit')):
+        md_arg, md = None, z3.IntVal(0)
+    else:
+        md = p.fresh_int('max_depth')
+        p.assume(md >= 1)
+        md_arg = SNum(md)
+    p.ghost['md'] = md
+    p.ghost['target'] = PREDL(F, z3.IntVal(1), md)
+    p.ghost['out'] = z3.Empty(SeqS)
+    err = None
+    try:
+        for y in eng.call(nodes_mod.g['dfs'], [forest, md_arg], {}):
+            ok = is_node(eng, y)
+            p.oblige('C12/dfs[max_depth]/yields-nodes', ok,
+                     info=repr(type(y)))
+            if not ok:
+                return
+            p.ghost['out'] = z3.Concat(p.ghost['out'], z3.Unit(nm.S(y)))
+    except PyRaise as ex:
+        err = ex
+    p.oblige('C04/dfs[max_depth]/raises-nothing', err is None,
+             info={'outcome': repr(err.value) if err else '',
+                   'signature': type(err.value).__name__ if err else ''})
+    if err is None:
+        p.oblige('C12/dfs[max_depth]/yields-the-depth-limited-preorder',
+                 mk_bool(p.ghost['out'] == p.ghost['target']),
+                 info={'signature': 'dfs with max_depth does not yield the '
+                       'preorder sequence cut below max_depth'})
+
+
+# ---------------------------------------------------------------------------
 # count_nodes(list): the number of nodes
 
 CN = 'ddsmt.nodes.count_nodes'
@@ -276,6 +381,110 @@ def run_cn(eng, p, mode='list'):
                  mk_bool(sym._znum(r) == p.ghost['target']),
                  info={'signature': 'count_nodes is not the number of nodes '
                        'of the forest'})
+
+
+# ---------------------------------------------------------------------------
+# count_exprs(list): the number of non-leaf nodes
+
+CE = 'ddsmt.nodes.count_exprs'
+EXPRS = z3.Function('EXPRS', Struct, z3.IntSort())
+EXPRSL = z3.Function('EXPRSL', SeqS, z3.IntSort())
+
+
+def setup_ce(eng):
+    setup(eng)
+    eng.spec_required.add(CE)
+
+    def probe(kind):
+        p = cur()
+        g = nm.lazy_node(eng, p, p.fresh_name('probe'))
+        p.assume(Struct.is_tup(nm.S(g)) if kind == 'list' else z3.Not(
+            Struct.is_tup(nm.S(g))))
+        return g
+
+    def den(lst):
+        tot = z3.IntVal(0)
+        for part in lst.parts:
+            if isinstance(part, tuple):
+                if not is_node(eng, part[1]):
+                    raise sym.Unsupported('work-list item is not a node')
+                tot = tot + EXPRS(nm.S(part[1]))
+            elif isinstance(part, wl.Seg):
+                g = nm.lazy_node(eng, cur(), cur().fresh_name('probe'))
+                if (part.wrap(g) if part.wrap else g) is not g:
+                    raise sym.Unsupported('work-list items are not nodes')
+                if part.cond is not None:
+                    # leaves contribute nothing: the filter may only drop
+                    # leaves
+                    if part.cond(probe('list')) is not True:
+                        raise sym.Unsupported('filter drops a list')
+                tot = tot + EXPRSL(part.seq)
+            else:
+                tot = tot + part.den[0]
+        return tot
+
+    def split(e, d):
+        D, cnt = d
+        p = cur()
+        n = nm.lazy_node(e, p, p.fresh_name('popped'))
+        rest = p.fresh_int('D')
+        cnt2 = p.fresh_int('items')
+        s = nm.S(n)
+        p.assume(z3.And(D == EXPRS(s) + rest, rest >= 0, cnt == cnt2 + 1,
+                        cnt2 >= 0, z3.Implies(cnt2 == 0, rest == 0)))
+        p.assume(EXPRS(s) == z3.If(Struct.is_tup(s), 1 + EXPRSL(kids(s)),
+                                   0))
+        p.assume(z3.Implies(Struct.is_tup(s), EXPRSL(kids(s)) >= 0))
+        return n, (rest, cnt2)
+
+    def havoc(e, env_, p):
+        D = p.fresh_int('D')
+        cnt = p.fresh_int('items')
+        # D: what the cnt unknown items still contribute (nothing if none)
+        p.assume(z3.And(D >= 0, cnt >= 0, z3.Implies(cnt == 0, D == 0)))
+        env_.vars['visit'] = wl.AbsList(e, [wl.Opaque(
+            (D, cnt), split, lambda d: d[1] > 0)])
+        env_.vars['res'] = SNum(p.fresh_int('res'))
+
+    def inv(e, env_):
+        p = cur()
+        v = env_.vars['visit']
+        if isinstance(v, list):
+            v = wl.as_abs(e, v)
+        if not isinstance(v, wl.AbsList):
+            return [False]
+        return [('C12', sym._znum(env_.vars['res']) + den(v) ==
+                 p.ghost['target'])]
+
+    def covers(e, env_, p):
+        x = env_.vars.get('expr')
+        if is_node(e, x):
+            kind = 'leaf' if isinstance(x.attrs.get('data'), (
+                str, sym.SStr)) else 'list'
+            p.oblige(f'cover/count_exprs/sees-a-{kind}', False, kind='cover')
+
+    eng.loop_specs[(CE, 'while visit')] = LoopSpec(
+        inv=inv, havoc={'effect:state': havoc}, sets=('visit', 'res'),
+        on_iter_end=covers)
+
+
+def run_ce(eng, p, mode='list'):
+    nodes_mod = eng.load_module('ddsmt.nodes')
+    arg = make_arg(eng, p, mode, EXPRS, EXPRSL)
+    err = None
+    r = None
+    try:
+        r = eng.call(nodes_mod.g['count_exprs'], [arg], {})
+    except PyRaise as ex:
+        err = ex
+    p.oblige('C04/count_exprs/raises-nothing', err is None,
+             info={'outcome': repr(err.value) if err else '',
+                   'signature': type(err.value).__name__ if err else ''})
+    if err is None:
+        p.oblige('C12/count_exprs/is-the-number-of-lists',
+                 mk_bool(sym._znum(r) == p.ghost['target']),
+                 info={'signature': 'count_exprs is not the number of '
+                       'non-leaf nodes of the forest'})
 
 
 BFSQ = 'ddsmt.nodes.bfs'
@@ -395,9 +604,16 @@ def contracts(tier):
         Contract('dfs', [DFS], run_dfs, setup=setup_dfs, assumptions=A, replay=rp),
         Contract('dfs[node]', [DFS], lambda e, p: run_dfs(e, p, 'node'),
                  setup=setup_dfs, assumptions=A, replay=rp),
+        Contract('dfs[max_depth]', [DFS], run_dfs_md, setup=setup_dfs_md,
+                 assumptions=A, replay=rp),
         Contract('count_nodes', [CN], run_cn, setup=setup_cn, assumptions=A, replay=rp),
         Contract('count_nodes[node]', [CN],
                  lambda e, p: run_cn(e, p, 'node'), setup=setup_cn,
+                 assumptions=A, replay=rp),
+        Contract('count_exprs', [CE], run_ce, setup=setup_ce, assumptions=A,
+                 replay=rp),
+        Contract('count_exprs[node]', [CE],
+                 lambda e, p: run_ce(e, p, 'node'), setup=setup_ce,
                  assumptions=A, replay=rp),
         Contract('bfs', [BFSQ], run_bfs, setup=setup_bfs, assumptions=A, replay=rp),
         Contract('bfs[node]', [BFSQ], lambda e, p: run_bfs(e, p, 'node'),
